@@ -72,7 +72,7 @@ func (fr *Frame) execBlock(s *State, stmts []ast.Stmt) *State {
 }
 
 func (fr *Frame) execStmt(s *State, st ast.Stmt, label string) *State {
-	if fr.vc.failed != nil {
+	if fr.vc.failed != nil || s.g == "false" {
 		return nil
 	}
 	switch x := st.(type) {
@@ -536,8 +536,14 @@ func (fr *Frame) execIf(s *State, x *ast.IfStmt) *State {
 	}
 	st := s.fork(c.S)
 	se := s.fork(not(c.S))
-	rt := fr.execBlock(st, x.Body.List)
-	var re *State
+	var rt, re *State
+	if !(fr.vc.prune && fr.vc.infeasible(st)) {
+		rt = fr.execBlock(st, x.Body.List)
+	}
+	if fr.vc.prune && fr.vc.infeasible(se) {
+		fr.eng.dropped["code after a guard that the precondition makes unreachable (prune)"]++
+		return rt
+	}
 	if x.Else != nil {
 		re = fr.execStmt(se, x.Else, "")
 	} else {
